@@ -195,7 +195,36 @@ func formatEventsParseError(path string, lineNo int, line []byte, cause error) e
 	return fmt.Errorf("%s:%d: invalid JSON in events log (run `ergo compact` after fixing): %s (%v)", path, lineNo, snippet, cause)
 }
 
+// logHasTornTail reports whether the log ends in an unterminated line (what a writer that died
+// mid-write leaves behind).
+func logHasTornTail(path string) bool {
+	info, err := os.Stat(path)
+	if err != nil || info.Size() == 0 {
+		return false
+	}
+	file, err := os.Open(path)
+	if err != nil {
+		return false
+	}
+	defer file.Close()
+	last := make([]byte, 1)
+	if _, err := file.ReadAt(last, info.Size()-1); err != nil {
+		return false
+	}
+	return last[0] != '\n'
+}
+
 func appendEvents(path string, events []Event) error {
+	// Never append onto a torn tail: the new line would be glued to the fragment and every
+	// later read of the log would fail. Rewrite instead, keeping exactly what readers already
+	// see (whole events; an unparsable fragment is dropped), through the atomic replace path.
+	if len(events) > 0 && logHasTornTail(path) {
+		existing, err := readEvents(path)
+		if err != nil {
+			return err
+		}
+		return appendEventsAtomically(path, existing, events)
+	}
 	verifPoint("append.open")
 	file, err := os.OpenFile(path, os.O_APPEND|os.O_CREATE|os.O_WRONLY, 0644)
 	if err != nil {
